@@ -114,6 +114,11 @@ def c12(ctx):
              "caller's source; at every Token::new in the lexer the spelling is the result of Lexer::substr itself (no trimming or other "
              "string operation in between), and where the range is make_range(a, b) the slice is substr(a..b) with the same a and b")
     spelling_rule(ctx, "C12.R7")
+    rep.rule("C12.R8", "no token is staged for a scan that is thrown away: Lexer::tokenize_word stages the `'s` / `'re` suffix token as a side "
+             "effect, so at every call site its result is what the caller yields on every path from the call to the return (the value "
+             "returned always derives from that call) -- tokenising first and rejecting afterwards would emit the suffix a second time, "
+             "overlapping the error token")
+    staged_rule(ctx, "C12.R8")
     # ---- R2
     ml = F.fn(LEX + "match_loop")
     writes = {}
@@ -252,6 +257,41 @@ def c12(ctx):
                 rep.ob("C12.R4", "provenance::%s::%s#%d" % (fn.path, fname, bi), ok,
                        "" if ok else "%s builds a LexResult whose %s %s" % (fn.path, fname, why), fn.loc(s["line"]), how="literal or '\\n'-guarded counter")
     rep.floor("C12.R4", n4, 5, "LexResult constructions")
+
+
+def staged_rule(ctx, rule):
+    F, rep = ctx.F, ctx.rep
+    TW = LEX + "tokenize_word"
+    tw = F.fn(TW)
+    if tw is None:
+        rep.fail(rule, "anchor", "Lexer::tokenize_word not found")
+        return
+    staged_w = [fn for fn, bi, kind, st in common.field_accesses(F, LEXER, "staged") if kind in ("write", "mutref") and common.top_fn(F, fn).path == TW]
+    rep.ob(rule, "tokenize_word-stages", bool(staged_w), "" if staged_w else "tokenize_word no longer writes Lexer.staged (the rule's premise is gone)", tw.loc(), how="writes Lexer.staged")
+    n = 0
+    for b, bi, t in common.who_calls(F, lambda c: (c.get("resolved") or c.get("def")) == TW):
+        n += 1
+        rep.analysed(common.top_fn(F, b))
+        after = b.reachable_from_succs(bi) | {bi}
+        bad = None
+        for b2, s2, st2 in b.assigns():
+            if st2["pl"]["l"] == 0 and not st2["pl"]["p"] and b2 in after:
+                ops_ = rvalue_operands(st2["rv"])
+                if not any(d == ("call", bi) for o in ops_ for d, _ in origins(b, o)):
+                    bad = st2.get("line")
+        for b2, t2 in b.calls():
+            if b2 != bi and b2 in after and t2["dest"]["l"] == 0 and not t2["dest"]["p"]:
+                from .c03 import kind_deep
+                if not any(d == ("call", bi) for a in t2["args"] for d, _ in kind_deep(b, a)):
+                    bad = t2["line"]
+        if t["dest"]["l"] == 0:
+            bad = None if bad is None else bad
+        ok = bad is None
+        rep.ob(rule, "result-is-yielded::" + common.top_fn(F, b).path.rsplit("::", 1)[-1], ok,
+               "" if ok else "%s calls tokenize_word (which stages the suffix token) and then, on some path, yields something else (line %s): the staged suffix is emitted after a token that already covers it" % (
+                   common.top_fn(F, b).path.rsplit("::", 1)[-1], bad),
+               b.loc(t["line"]), how="every value returned after the call derives from it")
+    rep.floor(rule, n, 1, "call sites of tokenize_word")
 
 
 def spelling_rule(ctx, rule):
